@@ -76,7 +76,7 @@ Definition wf_chart (c : chart) : bool :=
   let keys := Qfloor kq in
   (length m =? 30)%nat && is_integral kq && (1 <=? keys) && (keys <=? 18)
   && forallb mstr_ok m
-  && (let ss := meta_num m 4%nat in is_integral ss && Qle_bool 0 ss && Qle_bool ss 3)
+  && (let ss := meta_num m 4%nat in is_integral ss && Qle_bool (-1) ss && Qle_bool ss 3)
   && is_integral (meta_num m 2%nat)
   && clean (c_bg c)
   && forallb (fun s => clean (sm_file s) && negb (has 44 (sm_file s))) (c_samples c)
